@@ -193,6 +193,11 @@ def glue_events(names: int, prefixes: int, datatypes: int, npfx: int, nnames: in
         for i in range(datatypes + 2):  # two more than the table: consecutive evictions
             evs.append(("lit", f"http://p0/n{i}"))
     evs.append(("opt",))  # the writer repeats its (identical) options row mid-stream
+    if prefixes:
+        # one row that holds an IRI and a quoted triple: more IRIs per row than any plain row
+        iris = [e[1] for e in evs if e[0] == "iri"]
+        for k in range(min(3, len(iris))):
+            evs.append(("qrow", iris[k], tuple(iris[(k + j + 1) % len(iris)] for j in range(3))))
     return evs
 
 
@@ -219,6 +224,28 @@ def step2(st: Glue, ev) -> list[str]:
             got = st.dec.decode_iri(msg)
             if got._iri != ev[1]:
                 fails.append(f"IRI {ev[1]!r} decodes to {got._iri!r}")
+        elif ev[0] == "qrow":
+            from pyjelly.errors import JellyConformanceError  # noqa: PLC0415
+            from pyjelly.integrations.generic import generic_sink as gs  # noqa: PLC0415
+
+            outer = jelly.RdfIri()
+            quoted = jelly.RdfTriple()
+            try:
+                rows = list(st.enc.encode_iri(ev[1], outer))
+                rows += list(st.enc.encode_quoted_triple([gs.IRI(x) for x in ev[2]], quoted))
+            except JellyConformanceError:
+                # refused (the row needs more entries than a table holds): the encoder may not be
+                # used any further; the search goes on from a fresh pair
+                st.__init__(*st.sizes)
+                return fails
+            for r in rows:
+                st.dec.decode_row(getattr(r, r.WhichOneof("row")))
+            got = [st.dec.decode_iri(outer)._iri]
+            q = st.dec.decode_quoted_triple(quoted)
+            got += [t._iri for t in (q.s, q.p, q.o)]
+            want = [ev[1], *ev[2]]
+            if got != want:
+                fails.append(f"row with IRI and quoted triple {want} decodes to {got}")
         elif ev[0] == "opt":
             from pyjelly.options import StreamParameters, StreamTypes  # noqa: PLC0415
             from pyjelly.serialize.encode import encode_options  # noqa: PLC0415
